@@ -34,6 +34,21 @@ EXHAUSTIVE = True
 MSG = "roughenough::message::RtMessage"
 
 
+def norm_append(W, name, a):
+    """Normalise one append onto a byte buffer to ('u32', value) | ('bytes', value) | (name, value): `write_u32::<LE>(v)` and
+    `extend_from_slice(&v.to_le_bytes())` are the same four bytes; `write_all(x)`, `extend_from_slice(x)`, `extend(x)` append x."""
+    from lib import le_written
+    v = a[1] if len(a) > 1 else None
+    if name in ("write_u32",):
+        return ("u32", v)
+    if name in ("write_all", "extend_from_slice", "extend", "append", "put_slice"):
+        w = le_written(W, W.expand(v)) if v is not None else None
+        if w is not None and w.get("endian") == "LittleEndian" and w.get("width") == 4:
+            return ("u32", w["value"])
+        return ("bytes", v)
+    return (name, v)
+
+
 def previous_of(ev, t, cur):
     """Is t the loop-carried 'previous value' of cur: a merge whose inputs are the constant 0 and cur itself (possibly cast)?"""
     t = uncast(t)
@@ -311,6 +326,11 @@ def run(ctx):
     ctx.floor("decoder-guards", len(offp), 1, "offset pushes")
     # value slice
     vs = [bb for bb, t in mt.calls() if t["fn"].get("trait") == "core::ops::index::Index" and "Range<usize>" in t["arg_tys"][1]]
+    # `bytes.get(start..end)`: the std form of the same guarded slice (None exactly when !(start <= end <= len))
+    gets = [bb for bb, t in mt.calls() if callee_name(t["fn"].get("path", "")) == "get" and "slice" in t["fn"].get("path", "") and len(t["arg_tys"]) == 2
+            and "Range<usize>" in t["arg_tys"][1] and mev.call_args(bb)[0] == ("param", mt.path, 2)]
+    for bb in gets:
+        ctx.ok("decoder-guards", "multi_tag_message/value-bounds", "a value is taken with bytes.get(start..end): Some exactly when start <= end <= len", mt.loc(bb))
     for bb in vs:
         a = mev.call_args(bb)
         rng = a[1]
@@ -320,7 +340,7 @@ def run(ctx):
             mm = acceptance_mismatch(flow.rel_facts_at(MIN, bb), {"s": s_t, "e": e_t, "len": MLEN}, grid, lambda s, e, len: s <= e <= len)
             ctx.check("decoder-guards", "multi_tag_message/value-bounds", mm is None and a[0] == ("param", mt.path, 2), "a value is sliced only if start <= end <= len",
                       "value bounds guard differs from the reference: %s" % mm, mt.loc(bb))
-    ctx.floor("decoder-guards", len(vs), 1, "value slice sites")
+    ctx.floor("decoder-guards", len(vs) + len(gets), 1, "value slice sites")
     # tags read with read_exact, failure -> Err
     rex = [bb for bb, t in mt.calls() if callee_name(t["fn"].get("path", "")) == "read_exact"]
     for bb, a in dec_push:
@@ -330,7 +350,7 @@ def run(ctx):
                   "tag bytes are used although read_exact may have failed", mt.loc(bb))
     # every rejection is one the reference decoder makes too (3b)
     s_t = e_t = None
-    for bb in vs:
+    for bb in vs + gets:
         rng = mev.call_args(bb)[1]
         if rng[0] == "agg" and len(rng[2]) == 2:
             s_t, e_t = rng[2]
@@ -402,6 +422,10 @@ def run(ctx):
                         elif r[0] in ("Le", "Lt", "Eq") and values.contains(r[1], lambda x: is_call(x, "Tag::from_wire")) \
                                 and values.contains(r[2], lambda x: is_call(x) and callee_name(x[1]) == "last"):
                             idiom = "tag not above the previous tag (guard checked by rule 2)"
+                        elif r[0] in ("Eq", "Ne") and isinstance(r[1], tuple) and r[1][0] == "discr" and is_call(values.strip_payload(r[1][1])) and \
+                                callee_name(values.strip_payload(r[1][1])[1]) == "get" and "slice" in values.strip_payload(r[1][1])[1] and \
+                                ((r[0] == "Eq" and r[2] == ("int", 0)) or (r[0] == "Ne" and r[2] == ("int", 1))):
+                            idiom = "value range outside the message (slice::get returned None)"
                         elif r[0] == "Lt" and "off" in roles and uncast(r[1]) == roles["off"] and previous_of(e, r[2], roles["off"]):
                             idiom = "offset below the previous offset (the reference requires monotone offsets)"
                         elif r[0] in ("Lt", "Le", "Eq", "Ne") and guard:
@@ -457,14 +481,17 @@ def run(ctx):
     evs.sort()
     kinds = []
     for (_, name, a, b) in evs:
-        v = W.expand(a[1]) if len(a) > 1 else None
-        if name == "write_u32":
+        if name in ("reserve", "reserve_exact"):
+            continue
+        name, v0 = norm_append(W, name, a)
+        v = W.expand(v0) if v0 is not None else None
+        if name == "u32":
             u = uncast(v)
-            if u == ("len", ("field", ("param", enc.path, 1), "tags")):
+            if u == ("len", ("field", ("param", enc.path, 1), "tags")) or (isinstance(u, tuple) and u and u[0] == "len" and len(u) == 3 and u[1] == ("field", ("param", enc.path, 1), "tags")):
                 kinds.append("count")
             else:
                 kinds.append("offset")
-        elif name == "write_all":
+        elif name == "bytes":
             ie = iter_elem(W, v) if v else None
             if is_call(v, "Tag::wire_value"):
                 kinds.append("tag")
@@ -487,7 +514,11 @@ def run(ctx):
         order = {b: i for i, b in enumerate(ef.rpo())}
         fe = sorted((order[b], callee_name(c), fev.call_args(b), b) for (b, c, argi, ap) in fev.events_on(r[2]) if argi == 0 and ef.blocks[b].term["arg_tys"][0].startswith("&mut"))
         for (_, name, a, b) in fe:
-            v = values.strip_payload(a[1]) if len(a) > 1 else None
+            if name in ("reserve", "reserve_exact"):
+                continue
+            name, v0 = norm_append(W, name, a)
+            name = {"u32": "write_u32", "bytes": "write_all"}.get(name, name)
+            v = values.strip_payload(v0) if v0 is not None else None
             if name == "write_all" and v == ("bytes", magic):
                 fk.append("magic")
             elif name == "write_u32" and uncast(v)[0] == "len" and is_call(values.strip_payload(uncast(v)[1]), "RtMessage::encode"):
